@@ -334,8 +334,11 @@ def priority_edges(an: Analysis) -> list[tuple[str, str]]:
         if par is not None:
             edges += [(ta, t) for ta in an.reaching_transactions(par)]
     pairs = []
+    for mname in an.methods:  # a method defined inside another body: the enclosing body is scheduled before it
+        if an.parent[mname] is not None:
+            pairs.append((an.parent[mname], mname))
     for rel in an.spec.get("rels", []):
-        if rel[0] == "sb" or (rel[0] == "conf" and rel[3] == "L"):
+        if rel[0] in ("sb", "sbr") or (rel[0] == "conf" and rel[3] == "L"):
             pairs.append((rel[1], rel[2]))
         elif rel[0] == "conf" and rel[3] == "R":
             pairs.append((rel[2], rel[1]))
@@ -371,8 +374,10 @@ def relations_ok(spec) -> bool:
     order, no nested transaction conflicting with the transaction it is directly nested in"""
     an = analyze(spec)
     for rel in spec.get("rels", []):
-        if rel[0] == "sb" and an.deforder[rel[1]] > an.deforder[rel[2]]:
+        if rel[0] in ("sb", "sbr") and an.deforder[rel[1]] > an.deforder[rel[2]]:
             return False
+        if rel[0] == "sbr" and rel[1] in an.transactions and rel[2] in an.transactions and an.may_conflict(rel[1], rel[2]):
+            return False  # ready-dependent on a conflicting transaction: rejected as a deadlock
     for b in an.bodies.values():
         if b.get("rdep") and an.deforder[b["rdep"]] > an.deforder[b["name"]]:
             return False
@@ -419,15 +424,14 @@ class _Sub(Elaboratable):
         self.design = design
         self.mod = mod
         d = design
-        for b in d.spec["bodies"]:
+        for n, b in d.an.bodies.items():
             if b["mod"] != mod:
                 continue
-            n = b["name"]
-            if b["kind"] == "M":
+            if b["kind"] == "M":  # also the methods defined inside other bodies: their callers need the object
                 i = [("a", b["iw"])] if b.get("iw") else []
                 o = [("o", b["ow"])] if b.get("ow") else []
                 d.obj[n] = Method(name=n, i=i, o=o)
-            else:
+            elif d.an.parent[n] is None:
                 d.obj[n] = Transaction(name=n)
 
     def elaborate(self, platform):
@@ -478,6 +482,8 @@ class _Sub(Elaboratable):
                     m.d.av_comb += d.wit[(w, "av_comb")].eq(1)
                     m.d.top_comb += d.wit[(w, "top_comb")].eq(1)
                     m.d.sync += d.wit[(w, "sync")].eq(d.wit[(w, "sync")] + 1)
+                elif t == "nt" and s["body"]["kind"] == "M":
+                    define(s["body"])
                 elif t == "nt":
                     nb = s["body"]
                     tr = Transaction(name=nb["name"])
@@ -730,7 +736,8 @@ class Oracle:
 
     def __init__(self, an: Analysis):
         self.an = an
-        self.stats = dict(blocked=0, blocked_by_callee=0, blocked_by_validation=0, multi_run=0, active_sites=0)
+        self.stats = dict(blocked=0, blocked_by_callee=0, blocked_by_validation=0, blocked_by_callee_parent=0,
+                          blocked_by_ready_dependency=0, multi_run=0, active_sites=0)
 
     # -- helpers
     def site_active(self, s, ob: Obs) -> bool:
@@ -765,6 +772,12 @@ class Oracle:
         for mname in an.tree_methods(t):
             if not self.body_ready(mname, ob):
                 return False, "callee"
+            mpar = an.parent[mname]
+            if mpar is not None and not ob.run[mpar]:
+                return False, "callee_parent"
+        for rel in an.spec.get("rels", []):
+            if rel[0] == "sbr" and (rel[2] == t or rel[2] in an.tree_methods(t)) and not ob.run[rel[1]]:
+                return False, "ready_dependency"
         for c in an.chains(t):
             mb = an.bodies[c[-1]["callee"]]
             if mb.get("val") is not None and mb.get("iw") and self.chain_enabled(c, ob):
@@ -887,6 +900,8 @@ class Oracle:
                     self.stats["blocked_by_callee"] += 1
                 elif why == "validation":
                     self.stats["blocked_by_validation"] += 1
+                elif why in ("callee_parent", "ready_dependency"):
+                    self.stats["blocked_by_" + why] += 1
 
     # -- C02
     def check_c02(self, ob: Obs) -> Optional[str]:
@@ -944,6 +959,7 @@ def gen_spec(
     allow_alias=True,
     allow_rels=False,
     allow_rdep=False,
+    allow_nm=False,
     allow_mods=True,
     sched=None,
     max_space=512,
@@ -969,6 +985,9 @@ def gen_spec(
     if schedv == "rr":
         allow_nt = False
         allow_rdep = False
+        allow_nm = False
+    if allow_rdep:
+        rel_kinds = tuple(rel_kinds) + ("sbr",)
     bodies = []
     for i in range(nm):
         nonex = draw(st.integers(0, 9)) >= 10 - nonex_rate
@@ -1080,6 +1099,48 @@ def gen_spec(
             bodies.append(dict(kind="T", name=f"t{nt}", mod=mod, rdy=draw(st.booleans()), stmts=[mk(i)]))
             bodies.append(dict(kind="T", name=f"t{nt + 1}", mod=mod, rdy=draw(st.booleans()),
                                stmts=[dict(t="if", alts=alts, **{"else": draw(st.booleans())})]))
+    if allow_nm and draw(st.integers(0, 1)) == 0:
+        # a method DEFINED INSIDE another body (it is ready-dependent on the enclosing body): one top-level method is
+        # moved into the statements of another body whose transactions are disjoint from the method's (a transaction
+        # reaching both would be a combinational loop through run -> ready); kept only if the design is still
+        # well-formed after repair
+        import copy as _copy
+
+        pre = dict(sched=schedv, bodies=_copy.deepcopy(bodies), rels=[], tops=[])
+        repair(pre)
+        pan = analyze(pre)
+        reach = {b["name"]: set(pan.reaching_transactions(b["name"])) for b in bodies}
+        cand = [
+            (j, pi)
+            for j, mb in enumerate(bodies)
+            if mb["kind"] == "M" and reach[mb["name"]]
+            for pi, pb in enumerate(bodies)
+            if pi != j and reach[pb["name"]] and not (reach[pb["name"]] & reach[mb["name"]])
+        ]
+        # prefer methods that are reached through another method (the dependency has to be found transitively)
+        deep = [c for c in cand if any(s["callee"] == bodies[c[0]]["name"] and s["owner"] in pan.methods for s in pan.sites)]
+        if deep and draw(st.booleans()):
+            cand = deep
+        if cand:
+            j, pi = draw(st.sampled_from(cand))
+            guarded = draw(st.booleans())
+            trial = _copy.deepcopy(bodies)
+            inner = trial.pop(j)
+            owner = trial[pi - (1 if pi > j else 0)]
+            inner["mod"] = owner["mod"]
+            stmt = dict(t="nt", body=inner)
+            owner["stmts"].append(dict(t="if", alts=[[stmt]], **{"else": False}) if guarded else stmt)
+            tspec = dict(sched=schedv, bodies=trial, rels=[], tops=[])
+            repair(tspec)
+            tan = analyze(tspec)
+            par = tan.parent[inner["name"]]
+            if (
+                tan.reaching_transactions(inner["name"])
+                and tan.reaching_transactions(par)
+                and not set(tan.reaching_transactions(par)) & set(tan.reaching_transactions(inner["name"]))
+                and relations_ok(tspec)
+            ):
+                bodies = trial
     spec = dict(sched=schedv, bodies=bodies, rels=[], tops=[])
     if allow_tops:
         # bodies defined inside the alternatives of a top-level If/Elif/Else of their module
@@ -1114,7 +1175,7 @@ def gen_spec(
                 continue  # relations with uncalled methods are pruned by the library: uninteresting
             if not allow_same_trans_conf and set(an.reaching_transactions(a)) & set(an.reaching_transactions(b2)):
                 continue
-            rel = ["sb", a, b2] if kind == "sb" else ["conf", a, b2, p]
+            rel = [kind, a, b2] if kind in ("sb", "sbr") else ["conf", a, b2, p]
             if kind == "conf" and bodies_by_name[b2]["kind"] == "M" and draw(st.integers(0, 3)) == 0:
                 rel.append("A")
             spec["rels"].append(rel)
@@ -1124,6 +1185,16 @@ def gen_spec(
                     spec["rels"].append(["conf", a, b2, "U"])
                     if not relations_ok(spec):
                         spec["rels"].pop()
+    if allow_rels and allow_rdep and draw(st.integers(0, 2)) == 0:
+        # one explicit schedule_before(ready_dependent=True) between bodies reached by different transactions
+        for _ in range(6):
+            a, b2 = draw(st.sampled_from(top)), draw(st.sampled_from(top))
+            if a == b2 or not an.reaching_transactions(a) or not an.reaching_transactions(b2):
+                continue
+            spec["rels"].append(["sbr", a, b2])
+            if relations_ok(spec):
+                break
+            spec["rels"].pop()
     if allow_rels and dup_rels and spec["rels"] and draw(st.integers(0, 2)) == 0:
         # a second relation that lifts to a transaction pair already related (e.g. a method-level conflict plus a
         # transaction-level one with another priority)
